@@ -17,7 +17,12 @@ RULE = ("uniform: random UniformIce (index, range, index_above/below incl. None)
         "x,y offsets (up to 1e5 m), vertical / equal-depth / outside-range / on-the-bound (points, length, tof only) specials x max_reflections 0..3; "
         "enumeration: every (max_level<=4, start, direction, reflections<=3[4]) exactly and _potential_paths on real "
         "tracers; layered: random stacks of 2-4 uniform layers (walk, launch angle -> _trace_path) and a UniformIce "
-        "or AntarcticIce cut at 1-3 random depths compared with the unsplit tracer; a case is non-trivial when it has at "
+        "or AntarcticIce cut at 1-3 random depths compared with the unsplit tracer; stacks with exponential layers (firn over "
+        "uniform bulk, firn over firn, uniform over firn: angle handed from group to group, exists, mirror law, Snell); "
+        "completeness next to the cut-offs of the launch-angle grid: cut uniform ice with pairs within 1 degree of horizontal "
+        "(direct, level, surface-reflected), cut AntarcticIce with the receiver 0.03-2 % inside the shadow edge (direct_r_max), "
+        "refracted paths launched 0.01-0.9 degree below a critical angle (forward Snell construction as reference); "
+        "endpoints exactly on a range bound with explicit outside indices; a case is non-trivial when it has at "
         "least one reflection, layer crossing or a guard; distinct = distinct (kind, ice, endpoints, option) tuples")
 LEVEL_TEXT = ("image-source theorems (length, mirror law, boundary points, directions, tof), chain continuity, Snell / "
               "mirror step of the layered trace, split-medium reductions, unit transmission / zero reflection for equal "
@@ -34,7 +39,9 @@ LEVEL_NOTE = ("floating-point rounding is not modelled (tolerance run); no _part
               "cancellation noise of finding K9 (property C02) and whose endpoints stay above z_uniform with rho >= "
               "0.15 |dz| + 5 m; an endpoint exactly on a range bound gives a zero-length leg whose direction / Fresnel "
               "angle is 0/0 (points, length, tof compared only); C18_build_path_complete is proved for every "
-              "max_reflections (the design asked for <= 2)")
+              "max_reflections (the design asked for <= 2); completeness of the layered solution set is a search/correspondence "
+              "class only (brentq and the 1-degree launch-angle grid are not modelled): two roots inside one grid cell, e.g. at "
+              "the indirect_r_max edge, are outside the sampled classes")
 ASSUMPTIONS = ["scipy.constants.c = 299792458 m/s is hard-coded in twin/Uniform.body (the tof comparison notices a change)",
                "LayeredRayTracePath.fresnel transmission amplitudes > 1 (finding K2) belong to property C03"]
 C_LIGHT = 299792458.0
@@ -331,7 +338,7 @@ def corr_layered_uniform_stacks(run):
                 za, zb = pts[j][2], pts[j + 1][2]
                 trans = j < k - 1 and levels[j] != levels[j + 1]
                 nn = ice.layers[levels[j + 1]].n if j < k - 1 else lay.n
-                groups.append("%s %d %d %d %d %d" % (fw.fl([za, zb, lay.n, nn]), int(trans), int(levels[j] == 0),
+                groups.append("%s %d %d %d %d %d" % (fw.fl([za, zb, lay.n, nn, lay.n]), int(trans), int(levels[j] == 0),
                                                      int(levels[j] == nl - 1), int(ice._index_above is None),
                                                      int(ice._index_below is None)))
             rho = float(tr.rho)
@@ -549,10 +556,24 @@ def corr_split(run):
     return ok
 
 
+F18_INPUT = {"layers": [{"type": "a", "range": [-396.1845488571528, 0.0]},
+                        {"type": "u", "n": 1.7348616652482063, "range": [-2850.0, -396.1845488571528]}],
+             "above": 1, "below": None, "max_reflections": 1,
+             "A": [-441.81386532315724, -43.44463071246474, -128.93988855717305],
+             "B": [285.72888770052833, -1051.3776871926834, -113.03222256732371]}
+
+
+def corpus(run):
+    """regression input of the repaired defect F18: reflection off the lower boundary of a gradient-index layer must be a
+    mirror reflection at the ARRIVAL angle (before the repair the sub-path angles were 113.49 deg then 66.51 deg)"""
+    return oracle_gradient_stack(run, dict(F18_INPUT))
+
+
 def correspondence(run):
     ok = corr_uniform(run)
     ok = corr_enumeration(run) and ok
     ok = corr_layered_uniform_stacks(run) and ok
+    ok = corr_layered_gradient(run) and ok
     ok = corr_split(run) and ok
     return ok
 
@@ -596,8 +617,9 @@ def oracle_uniform(run, rt, ice, A, B, maxref, kind):
                        what="number of uniform-ice solutions is not 1 + allowed (reflections, initial direction) pairs")
         return
     rho = math.hypot(B[0] - A[0], B[1] - A[1])
-    if kind in ("boundary", "same"):
+    if kind == "same":
         return
+    degenerate = kind == "boundary"      # a zero-length leg: directions are 0/0, everything else is still checked
     for (refl, up), p in zip(allowed, sols):
         d = dict(data, reflections=refl, initial_up=up)
         zi = mirror_image_z(B[2], lo, hi, refl, up)
@@ -612,8 +634,11 @@ def oracle_uniform(run, rt, ice, A, B, maxref, kind):
                            what="path length is not the distance to the receiver mirrored `reflections` times")
             return
         if abs(float(p.tof) - ice.n * L / C_LIGHT) > 1e-9 * ice.n * L / C_LIGHT + 1e-19 * scale:
-            run.fail_input("uniform-tof", d, observed=float(p.tof), expected=ice.n * L / C_LIGHT, what="tof is not n L / c")
+            run.fail_input("uniform-tof", d, observed=float(p.tof), expected=ice.n * L / C_LIGHT,
+                           what="tof is not n L / c (n = index of the ice the endpoints lie in, bounds included)")
             return
+        if not math.isfinite(L) or (degenerate and not (L > 0)):
+            continue
         if len(pts) != refl + 2 or np.any(pts[0] != np.asarray(A)) or np.any(pts[-1] != np.asarray(B)):
             run.fail_input("uniform-endpoints", d, observed=pts.tolist(), what="path does not start/end at the endpoints")
             return
@@ -623,7 +648,7 @@ def oracle_uniform(run, rt, ice, A, B, maxref, kind):
                 run.fail_input("uniform-boundary", d, observed=pts.tolist(), expected="reflection %d on %s" % (k, "hi" if going_up else "lo"),
                                what="reflection point is not on the ice boundary the ray is heading to")
                 return
-        if L > 0:
+        if L > 0 and not degenerate:
             e = np.array([B[0] - A[0], B[1] - A[1], zi - A[2]]) / L
             rcv = e * np.array([1, 1, (-1) ** refl])
             if np.max(np.abs(np.asarray(p.emitted_direction, float) - e)) > 1e-8 + 1e-12 * scale / max(L, 1e-3) or \
@@ -684,6 +709,242 @@ def oracle_layered_chain(run, tr, sols, data):
                                    what="n sin(theta) is not continuous across a transmitting boundary")
                     return False
     return True
+
+
+
+# --------------------------------------------------------------------------------------------
+# stacks described by JSON (uniform and exponential layers)
+def build_stack(desc):
+    rt, im, LayeredIce, LayeredRayTracer = _mods()
+    layers = []
+    for l in desc["layers"]:
+        if l["type"] == "u":
+            layers.append(im.UniformIce(l["n"], valid_range=tuple(l["range"]), index_above=None, index_below=None))
+        else:
+            layers.append(im.AntarcticIce(valid_range=tuple(l["range"]), index_above=None, index_below=None))
+    return LayeredIce(layers, index_above=desc["above"], index_below=desc["below"])
+
+
+def gradient_stack_case(run):
+    """stack with at least one exponential layer, endpoints above z_uniform, not near-vertical"""
+    r = run.rng
+    zc = -r.uniform(60, 400)
+    k = r.choice(["firn/uniform", "firn/firn", "uniform/firn"])
+    if k == "firn/uniform":
+        layers = [{"type": "a", "range": [zc, 0.0]}, {"type": "u", "n": r.uniform(1.6, 1.8), "range": [-2850.0, zc]}]
+    elif k == "firn/firn":
+        layers = [{"type": "a", "range": [zc, 0.0]}, {"type": "a", "range": [-2850.0, zc]}]
+    else:
+        layers = [{"type": "u", "n": r.uniform(1.3, 1.5), "range": [zc, 0.0]}, {"type": "a", "range": [-2850.0, zc]}]
+    zA, zB = r.uniform(-650, -5), r.uniform(-650, -5)
+    if r.random() < 0.4:      # both above the interface: reflections off the top of the lower layer
+        zA, zB = r.uniform(zc + 3, -5), r.uniform(zc + 3, -5)
+    for z in (zc,):
+        if abs(zA - z) < 1.5:
+            zA = z - 2.0
+        if abs(zB - z) < 1.5:
+            zB = z - 2.0
+    rho = max(10 ** r.uniform(1.3, 3.0), 0.15 * abs(zA - zB) + 5.0)
+    az = r.uniform(0, 2 * math.pi)
+    A = [r.uniform(-300, 300), r.uniform(-300, 300), zA]
+    B = [A[0] + rho * math.cos(az), A[1] + rho * math.sin(az), zB]
+    return {"layers": layers, "above": 1, "below": None, "A": A, "B": B, "max_reflections": 1}
+
+
+def solution_groups(tr, sol):
+    """arguments of `_trace_path` re-derived from a reported solution"""
+    ice = tr.ice
+    depths, grouped, models = [float(tr.from_point[2])], [], []
+    for sp in sol.paths:
+        l = ice.layers.index(sp.ice)
+        if getattr(sp, "direct", True):
+            grouped.append([l])
+        else:
+            grouped.append([l, l])
+            depths.append(float(ice.boundaries[l]))      # turn-over toward the top of its layer
+        depths.append(float(sp.to_point[2]))
+        models.append(sp.ice)
+    return depths, grouped, models
+
+
+def corr_layered_gradient(run):
+    """stacks with exponential layers: the angle handed from group to group by `_trace_path` against `stepAngle`"""
+    rt, im, LayeredIce, LayeredRayTracer = _mods()
+    reqs, cases = [], []
+    for i in range(run.scale(12, 120)):
+        desc = gradient_stack_case(run)
+        ice = build_stack(desc)
+        tr = LayeredRayTracer(desc["A"], desc["B"], ice)
+        tr.max_reflections = desc["max_reflections"]
+        with np.errstate(all="ignore"):
+            sols = tr.solutions
+        nl = len(ice.layers)
+        run.count("layered_gradient_stack")
+        for sol in sols:
+            depths, grouped, models = solution_groups(tr, sol)
+            a0 = float(sol.paths[0].theta0)
+            with np.errstate(all="ignore"):
+                drs, angs = tr._trace_path(a0, np.array(depths), grouped, models)
+            start = 0
+            plan = []
+            for j, g in enumerate(grouped[:-1]):
+                stop = start + len(g)
+                trans = g[-1] != grouped[j + 1][0]
+                nh, ns = float(models[j].index(depths[start])), float(models[j].index(depths[stop]))
+                nn = float(models[j + 1].index(depths[stop]))
+                plan.append((len(reqs), float(angs[j + 1])))
+                reqs.append("step %s %d %d %s %d %d %d %d 0" % (fw.fl([float(angs[j])]), int(len(g) == 2), int(trans),
+                                                            fw.fl([nh, nn, ns]), int(g[-1] == 0), int(g[-1] == nl - 1),
+                                                            int(ice._index_above is None), int(ice._index_below is None)))
+                start = stop
+            cases.append((desc, grouped, [float(a) for a in angs], [float(sp.theta0) for sp in sol.paths],
+                          float(np.sum(drs)), float(tr.rho), plan, cancellation_noise(sol)))
+    replies = fw.run_driver("C18", reqs)
+    ok = True
+    for desc, grouped, angs, thetas, rsum, rho, plan, noise in cases:
+        run.case(("layered-gradient", str(desc["layers"]), tuple(desc["A"]), tuple(desc["B"]), str(grouped)),
+                 nontrivial=len(grouped) > 1, sample={"kind": "layered-gradient", "A": desc["A"], "B": desc["B"], "groups": grouped})
+        bad = None
+        if not fw.all_close(angs, thetas, 1e-9, 1e-11):
+            bad = "_trace_path angles %s are not the sub-path launch angles %s" % (angs, thetas)
+        elif abs(rsum - rho) > 1e-6 * max(1.0, rho) + 25 * noise:      # closed-form jitter of the exponential legs (K9)
+            bad = "certificate: radial distances sum to %r, rho = %r" % (rsum, rho)
+        for idx, want in plan:
+            if bad:
+                break
+            rp = replies[idx]
+            got = fw.unfl([rp])[0] if rp not in ("nan", "bad-op") else None
+            if got is None or abs(got - want) > 1e-11:
+                bad = "angle handed to the next group: model=%s impl=%r (request %s)" % (rp if got is None else got, want, reqs[idx][:60])
+        if bad:
+            ok = False
+            run.note_broken("correspondence: layered gradient stack %s: %s" % (desc, bad))
+        else:
+            run.traces += 1
+    return ok
+
+
+# --------------------------------------------------------------------------------------------
+# completeness of the layered solution set next to a cut-off of the launch-angle search
+def special_split(run, which):
+    """cut media whose unsplit solutions have launch angles within a degree of a validity cut-off of the index path"""
+    rt, im, LayeredIce, LayeredRayTracer = _mods()
+    r = run.rng
+    if which in ("horizontal", "horizontal-reflected", "level"):
+        n = r.uniform(1.3, 1.9)
+        lo = -r.uniform(600, 2500)
+        ab = r.choice([1, 1.0, r.uniform(1.0, 1.3)])
+        if which == "horizontal-reflected":
+            zA, zB = -r.uniform(20, 150), -r.uniform(20, 150)
+            rho = (abs(zA) + abs(zB)) / math.tan(math.radians(r.uniform(0.2, 0.95)))
+            cuts = sorted({round(r.uniform(lo * 0.9, -160), 3) for _ in range(r.randint(1, 2))}, reverse=True)
+            if r.random() < 0.5:
+                cuts = sorted(set(cuts) | {round(-r.uniform(2, 18), 3)}, reverse=True)
+        else:
+            rho = 10 ** r.uniform(2.3, 3.3)
+            zA = r.uniform(lo * 0.8, -30)
+            dz = 0.0 if which == "level" else rho * math.tan(math.radians(r.uniform(0.05, 0.95))) * r.choice([-1, 1])
+            zB = min(zA + dz, -3.0)
+            cuts = {round(r.uniform(lo * 0.95, -2), 3) for _ in range(r.randint(0, 2))}
+            if abs(zA - zB) > 1.4:
+                cuts.add(round(0.5 * (zA + zB), 3))       # a cut between the endpoints
+            else:
+                cuts.add(round(zA - 5.0, 3))
+            cuts = sorted(cuts, reverse=True)
+        for c in cuts:
+            if abs(zA - c) < 0.5:
+                zA = c - 0.6
+            if abs(zB - c) < 0.5:
+                zB = c - 0.6
+        data = {"kind": "uniform", "params": {"n": n, "lo": lo, "above": ab, "below": None, "cuts": cuts}}
+    else:   # shadow-edge: direct ray launched within a degree of max_angle
+        zA, zB = r.uniform(-500, -60), r.uniform(-250, -20)
+        cuts = sorted({round(r.uniform(-600, -10), 3) for _ in range(r.randint(1, 2))}, reverse=True)
+        for c in cuts:
+            if abs(zA - c) < 0.5:
+                zA = c - 0.7
+            if abs(zB - c) < 0.5:
+                zB = c - 0.7
+        probe = rt.SpecializedRayTracer((0, 0, zA), (10, 0, zB), im.AntarcticIce())
+        rho = float(probe.direct_r_max) * (1 - 10 ** r.uniform(-3.5, -1.7))
+        data = {"kind": "antarctic", "params": {"cuts": cuts}}
+    az = r.uniform(0, 2 * math.pi)
+    A = [r.uniform(-300, 300), r.uniform(-300, 300), zA]
+    data.update(A=A, B=[A[0] + rho * math.cos(az), A[1] + rho * math.sin(az), zB], special=which)
+    return data
+
+
+def critical_case(run):
+    """uniform layers with different indices and a refracted direct path launched within a degree of a critical angle,
+    constructed forward from Snell's law (independent of any root search)"""
+    r = run.rng
+    nl = r.randint(2, 3)
+    top, layers = 0.0, []
+    for i in range(nl):
+        bot = top - r.uniform(40, 300)
+        layers.append({"type": "u", "n": r.uniform(1.3, 1.9), "range": [bot, top]})
+        top = bot
+    i0, i1 = r.sample(range(nl), 2)
+    route = list(range(i0, i1 + 1)) if i0 < i1 else list(range(i0, i1 - 1, -1))
+    ns = [layers[j]["n"] for j in route]
+    if min(ns[1:]) > ns[0] - 0.03:
+        layers[route[-1]]["n"] = ns[0] - r.uniform(0.05, 0.25)       # the receiver's layer is lighter: a critical angle exists
+        ns = [layers[j]["n"] for j in route]
+    theta_c = math.asin(min(ns[1:]) / ns[0])
+    theta = theta_c - math.radians(10 ** r.uniform(-2, -0.05))
+    down = i0 < i1
+    zs = r.uniform(layers[i0]["range"][0] + 2, layers[i0]["range"][1] - 2)
+    zr = r.uniform(layers[i1]["range"][0] + 2, layers[i1]["range"][1] - 2)
+    rho = length = tof = 0.0
+    for j in route:
+        lo, hi = layers[j]["range"]
+        a = zs if j == i0 else (hi if down else lo)
+        b = zr if j == i1 else (lo if down else hi)
+        th = math.asin(ns[0] * math.sin(theta) / layers[j]["n"])
+        h = abs(b - a)
+        rho += h * math.tan(th)
+        length += h / math.cos(th)
+        tof += layers[j]["n"] * h / math.cos(th) / C_LIGHT
+    az = r.uniform(0, 2 * math.pi)
+    A = [r.uniform(-200, 200), r.uniform(-200, 200), zs]
+    B = [A[0] + rho * math.cos(az), A[1] + rho * math.sin(az), zr]
+    pol = math.pi - theta if down else theta
+    return {"layers": layers, "above": 1, "below": None, "A": A, "B": B, "max_reflections": r.choice([0, 1]),
+            "expected": {"length": length, "tof": tof, "launch_polar_angle": pol,
+                         "critical_angle_deg": math.degrees(theta_c), "launch_from_vertical_deg": math.degrees(theta)}}
+
+
+def oracle_critical(run, data):
+    rt, im, LayeredIce, LayeredRayTracer = _mods()
+    ice = build_stack(data)
+    tr = LayeredRayTracer(data["A"], data["B"], ice)
+    tr.max_reflections = data["max_reflections"]
+    with np.errstate(all="ignore"):
+        sols = tr.solutions
+    ex = data["expected"]
+    run.case(("oracle-critical", str(data["layers"]), tuple(data["A"]), tuple(data["B"])), nontrivial=True)
+    for s in sols:
+        if abs(float(s.path_length) - ex["length"]) <= 1e-6 * ex["length"] and abs(float(s.tof) - ex["tof"]) <= 1e-6 * ex["tof"] \
+                and abs(math.acos(max(-1.0, min(1.0, float(s.emitted_direction[2])))) - ex["launch_polar_angle"]) < 1e-5:
+            return True
+    run.fail_input("complete-critical", data, observed=[(float(s.path_length), float(s.tof)) for s in sols],
+                   expected=ex, what="the refracted direct path constructed from Snell's law (launched %.3f deg below the critical "
+                                     "angle) is missing from the layered solutions" % (ex["critical_angle_deg"] - ex["launch_from_vertical_deg"]))
+    return False
+
+
+def oracle_gradient_stack(run, desc):
+    rt, im, LayeredIce, LayeredRayTracer = _mods()
+    ice = build_stack(desc)
+    tr = LayeredRayTracer(desc["A"], desc["B"], ice)
+    tr.max_reflections = desc["max_reflections"]
+    with np.errstate(all="ignore"):
+        sols = tr.solutions
+    run.case(("oracle-gradient-stack", str(desc["layers"]), tuple(desc["A"]), tuple(desc["B"])), nontrivial=True)
+    if bool(tr.exists) != (len(sols) > 0):
+        run.fail_input("layered-exists", desc, observed=[bool(tr.exists), len(sols)], what="exists is not 'solutions non-empty'")
+        return False
+    return oracle_layered_chain(run, tr, sols, desc)
 
 
 def bounce_walks(m, start, down, refl):
@@ -763,6 +1024,36 @@ def search(run, deep):
     for kind, m in (("uniform", run.scale(10, 100) if not deep else 100), ("antarctic", run.scale(5, 50) if not deep else 50)):
         for i in range(m):
             check_split(run, kind, report)
+    # stacks with exponential layers: exists, chain continuity, mirror law and Snell from the reported directions
+    for i in range(run.scale(10, 100) if not deep else 100):
+        oracle_gradient_stack(run, gradient_stack_case(run))
+    # completeness next to the cut-offs of the launch-angle search: within a degree of horizontal, of the shadow edge
+    # (unsplit tracer as reference) and of a critical angle (forward Snell construction as reference)
+    for which, m in (("horizontal", 6), ("level", 2), ("horizontal-reflected", 3), ("shadow-edge", 6)):
+        for i in range(m if not deep else 10 * m):
+            run.count("complete_" + which)
+            check_split(run, None, report, data=special_split(run, which))
+    for i in range(8 if not deep else 80):
+        run.count("complete_critical")
+        oracle_critical(run, critical_case(run))
+    # endpoints exactly on a range bound with explicit outside indices: tof = n L / c with the index of the ice itself
+    for i in range(10 if not deep else 100):
+        ice = rand_uice(run, im)
+        if ice._index_below is None:
+            ice = im.UniformIce(ice.n, valid_range=ice.valid_range, index_above=ice._index_above, index_below=ice.n + 0.3)
+        if ice._index_above is None:
+            ice = im.UniformIce(ice.n, valid_range=ice.valid_range, index_above=1.0, index_below=ice._index_below)
+        kind, A, B = rand_pair(run, *ice.valid_range, kind="general")
+        bound = ice.valid_range[i % 2]
+        if (i // 2) % 2:
+            B[2] = bound
+        else:
+            A[2] = bound
+        maxref = run.rng.choice([0, 1, 2])
+        run.case(("oracle-uniform-on-bound", ice.n, ice.valid_range, tuple(A), tuple(B), maxref), nontrivial=True)
+        run.count("uniform_endpoint_on_bound")
+        with np.errstate(all="ignore"):
+            oracle_uniform(run, rt, ice, A, B, maxref, "boundary")
 
 
 def replay(run, data):
@@ -774,7 +1065,13 @@ def replay(run, data):
         n, lo, hi, ab, be = inp["ice"]
         ice = im.UniformIce(n, valid_range=(lo, hi), index_above=ab, index_below=be)
         with np.errstate(all="ignore"):
-            oracle_uniform(run, rt, ice, inp["A"], inp["B"], inp["max_reflections"], "general")
+            lo_, hi_ = ice.valid_range
+            on_bound = inp["A"][2] in (lo_, hi_) or inp["B"][2] in (lo_, hi_)
+            oracle_uniform(run, rt, ice, inp["A"], inp["B"], inp["max_reflections"], "boundary" if on_bound else "general")
+    elif kind == "complete-critical":
+        oracle_critical(run, inp)
+    elif kind.startswith("layered-") and "layers" in inp:
+        oracle_gradient_stack(run, inp)
     elif kind.startswith("layered-"):
         b = inp["bounds"]
         layers = [im.UniformIce(n, valid_range=(b[i + 1], b[i]), index_above=None, index_below=None)
